@@ -200,13 +200,35 @@ def f_pkgconfig(rng, u, c):
         kw.append("subdirs: ['zsub', 'asub']")
     if rng.random() < 0.5:
         kw.append("extra_cflags: ['-DZ', '-DA']")
-    if rng.random() < 0.3:
+    r = rng.random()
+    if r < 0.25:
         kw.append("requires: ['zlibfoo', 'abar >= 1']")
+    elif r < 0.6:     # several version requirements on one name (a set in DependenciesHelper.version_reqs), duplicates
+        reqs = ['zlibfoo >= 1.0', 'zlibfoo < 3', 'zlibfoo != 2.1', 'abar', 'zlibfoo == 2', 'abar > 0', 'mid9 <= 9', 'zlibfoo']
+        rng.shuffle(reqs)
+        kw.append("requires: [%s]" % ', '.join("'%s'" % q for q in reqs[:rng.randint(2, 8)]))
+        rng.shuffle(reqs)
+        kw.append("requires_private: [%s]" % ', '.join("'%s'" % q for q in reqs[:rng.randint(1, 5)] + ['privonly >= 2', 'privonly < 5']))
+    if rng.random() < 0.4:
+        libs = ['-lz', '-L/opt/z', '-la', '-lz', '-pthread', '-L/opt/a', '-Wl,--as-needed', '-pthread']
+        rng.shuffle(libs)
+        kw.append("libraries: [%s]" % ', '.join("'%s'" % q for q in libs[:rng.randint(1, 6)]))
+        rng.shuffle(libs)
+        kw.append("libraries_private: [%s]" % ', '.join("'%s'" % q for q in libs[:rng.randint(1, 5)]))
+    if rng.random() < 0.3:
+        kw.append("conflicts: ['oldz < 1', 'olda']")
+    if rng.random() < 0.3:
+        kw.append("url: 'https://example.invalid/%s'" % u)
+    if rng.random() < 0.3:
+        kw.append("filebase: 'fb-%s', install_dir: 'share/pc%s'" % (u, u))
     if rng.random() < 0.3:
         kw.append("uninstalled_variables: ['uz=1', 'ua=2']")
     if rng.random() < 0.3:
         kw.append("unescaped_variables: ['raw=a b']")
     lines.append('pkg%s.generate(%s)' % (u, ', '.join(kw)))
+    if rng.random() < 0.4:
+        lines.append("pkg%s.generate(name: 'dataonly%s', description: 'data', version: '2', dataonly: true, variables: {'zd': '1', 'ad': '${prefix}/a'}, "
+                     "requires: ['zdat >= 1', 'zdat < 2'], install_dir: 'share/pkgconfig')" % (u, u))
     return '\n'.join(lines) + '\n', {}
 
 
@@ -414,6 +436,7 @@ def f_cmore(rng, u, c):
              'mo%s.c' % u: 'int mo%s(void) { return 3; }\n' % u, 'mmain%s.c' % u: C_MAIN, 'minc%s/x.h' % u: '\n', 'mld%s.map' % u: '{ global: *; };\n',
              'mextra%s.txt' % u: 'x\n'}
     lines = ["cc%s = meson.get_compiler('c')" % u,
+             "if add_languages('cpp', native: false, required: false)\n  summary('cpp%s', meson.get_compiler('cpp').get_id())\nendif" % u,
              "cdm%s = configuration_data()" % u,
              "foreach h : ['stdio.h', 'zzz_nope.h', 'stdlib.h']\n  cdm%s.set('HAVE_' + h.underscorify().to_upper(), cc%s.has_header(h))\nendforeach" % (u, u),
              "cdm%s.set('SIZEOF_INT', cc%s.sizeof('int'))" % (u, u),
@@ -437,9 +460,27 @@ def f_cmore(rng, u, c):
     return '\n'.join(lines) + '\n', files
 
 
+def f_many(rng, u, c):
+    """many targets (more than a dozen), generated in a loop, chained, aliased and tested"""
+    names = ['z', 'a', 'm', 'b10', 'b9', 'B', 'q', 'r', 's', 't', 'u', 'v', 'w']
+    rng.shuffle(names)
+    n = rng.randint(9, 13)
+    lines = ["many%s = []" % u, "prev%s = []" % u,
+             "foreach n : [%s]" % ', '.join("'%s'" % x for x in names[:n]),
+             "  t = custom_target('many%s_' + n, output: 'many%s_' + n + '.out', command: ['touch', '@OUTPUT@'], depends: prev%s, "
+             "build_by_default: n == 'z', install: n == 'a', install_dir: 'share/many%s')" % (u, u, u, u),
+             "  many%s += t" % u, "  prev%s = [t]" % u,
+             "  test('many%s_' + n, find_program('true'), depends: many%s, suite: ['many', n])" % (u, u),
+             "endforeach",
+             "alias_target('manyall%s', many%s)" % (u, u),
+             "run_target('manyrun%s', command: ['true'], depends: many%s)" % (u, u),
+             "custom_target('manycat%s', input: many%s, output: 'manycat%s.out', command: ['cat', '@INPUT@'], capture: true)" % (u, u, u)]
+    return '\n'.join(lines) + '\n', {}
+
+
 FEATURES = [('confdata', f_confdata), ('confdict', f_confdict), ('confcopy', f_confcopy), ('confcmd', f_confcmd),
             ('custom', f_custom), ('tests', f_tests), ('install', f_install), ('pkgconfig', f_pkgconfig),
-            ('cmake', f_cmake), ('misc', f_misc), ('ctargets', f_ctargets), ('cshared', f_cshared), ('envobj', f_envobj), ('more', f_more), ('cmore', f_cmore)]
+            ('cmake', f_cmake), ('misc', f_misc), ('ctargets', f_ctargets), ('cshared', f_cshared), ('envobj', f_envobj), ('more', f_more), ('cmore', f_cmore), ('many', f_many)]
 FEAT = dict(FEATURES)
 FEAT['confcmd_all'] = f_confcmd_all      # corpus only
 
@@ -535,6 +576,21 @@ def make_project(rng, name, feats=None, c=None, nsub=None, subdirs=None):
     return dict(meta, name=name, files=files, opts=opts, alt_opt=alt, c=c, features=feats, nsub=nsub)
 
 
+def java_rust_project():
+    """jar() and structured_sources() (javac and rustc are available in the sandbox)"""
+    files = {'meson.build': "project('corp_java_rust', 'java', 'rust', version: '1.0')\n"
+                            "jar('jz', 'com/Z.java', 'com/A.java', main_class: 'com.Z', java_args: ['-Xlint:all'], install: true, install_dir: 'share/java', "
+                            "java_resources: structured_sources('res/z.txt', {'sub': 'res/a.txt'}))\n"
+                            "ss = structured_sources('main.rs', {'zmod': 'zmod/mod.rs', 'amod': ['amod/mod.rs']})\n"
+                            "executable('rs', ss, rust_args: ['--cfg', 'zfeat', '--cfg', 'afeat'], install: true)\n"
+                            "test('rs', find_program('true'), env: {'RZ': '1', 'RA': '2'})\n",
+             'meson.options': OPTIONS_FILE,
+             'com/Z.java': 'package com; public class Z { public static void main(String[] a) {} }\n',
+             'com/A.java': 'package com; public class A { }\n', 'res/z.txt': 'z\n', 'res/a.txt': 'a\n',
+             'main.rs': 'mod zmod; mod amod; fn main() {}\n', 'zmod/mod.rs': '\n', 'amod/mod.rs': '\n'}
+    return {'name': 'corp_java_rust', 'files': files, 'opts': [], 'alt_opt': ('iopt', '7', '3'), 'c': True, 'features': ['java_rust'], 'nsub': 0}
+
+
 def corpus(rng):
     """Hand-picked projects: every feature alone (language-free), a C project with everything,
     subprojects with wraps, nested subdir."""
@@ -548,6 +604,11 @@ def corpus(rng):
     out.append(make_project(rng, 'corp_c_more', feats=['cmore', 'envobj'], c=True, nsub=0, subdirs=True))
     out.append(make_project(rng, 'corp_c_min', feats=['ctargets'], c=True, nsub=0, subdirs=False))
     out.append(make_project(rng, 'corp_subs', feats=['confdata', 'misc', 'install'], c=False, nsub=3, subdirs=True))
+    out.append(java_rust_project())
+    q = make_project(rng, 'corp_many_subs', feats=['many', 'many', 'pkgconfig', 'pkgconfig', 'pkgconfig'], c=False, nsub=3, subdirs=True)
+    # a subproject that itself uses another subproject
+    q['files']['subprojects/zsub/meson.build'] += "sub_of_sub = subproject('asub')\n"
+    out.append(q)
     # build directory nested inside the source tree (`meson setup build`), with configure-time commands
     # whose @OUTPUT@/@DEPFILE@ live in that build directory; once at top level, once in a subdir
     q = make_project(rng, 'corp_nested_cmd', feats=['confcmd_all', 'confdata'], c=False, nsub=0, subdirs=False)
@@ -596,8 +657,10 @@ def classify(rel):
         return 'private-text'
     if parts[0] == 'meson-uninstalled':
         return 'pkgconfig'
-    if rel in ('.gitignore', '.hgignore', 'CACHEDIR.TAG', 'compile_commands.json'):
+    if rel in ('.gitignore', '.hgignore', 'CACHEDIR.TAG', 'compile_commands.json', 'rust-project.json'):   # IDE databases, rewritten unconditionally by design
         return 'marker'
+    if rel.endswith('META-INF/MANIFEST.MF'):
+        return 'jar-manifest'           # written directly by the backend on every configure (like *.pc): content only
     if base.startswith('extcmd_'):
         return 'configure_file_extcmd'  # written by the user's own command (configure_file(command:) without capture)
     return 'configure_file'            # everything else in the tree is an output of a configure-time command
